@@ -139,6 +139,26 @@ pub fn c02(t: &dyn TypeOps, cx: &mut Cx, c03: bool) {
             }
         }
         if i < 1 && !spans.is_empty() { cx.sample(json!({"type": cx.type_id, "value": format!("{:?}", want), "spans": spans.iter().map(|s| json!({"off": s.addr.wrapping_sub(base), "bytes": s.bytes, "count": s.count})).collect::<Vec<_>>() })); }
+        // the same at a few misplaced bases: whenever the reader accepts the placement, every
+        // borrowed part must still be exactly where the writer put it, and aligned
+        if i < cx.tier.pick(2, 6) && !blocks.is_empty() {
+            for r in [1usize, 2, 4, 8, 16, 32, 64] {
+                cx.evals += 1;
+                let base_r = arena.base() + r;
+                let placed = arena.place(r, &bytes);
+                if let Out::Ok((_, sp)) = t.eps(placed) {
+                    for (b, s) in blocks.iter().zip(&sp) {
+                        if let Ev::Block { off, len, .. } = b {
+                            let mut bad = vec![];
+                            if s.elem_align > 0 && s.addr % s.elem_align != 0 { bad.push("misaligned"); }
+                            if *len > 0 && s.addr != base_r + off { bad.push("address"); }
+                            if s.bytes != *len { bad.push("length"); }
+                            if !bad.is_empty() { cx.violate(&format!("span-at-misplaced-base-{}", bad.join("+")), json!({"value": vdesc(i, &want), "residue": r, "model_block": format!("{:?}", b), "span": format!("{:?}", s)})); }
+                        }
+                    }
+                }
+            }
+        }
         // allocation independence under scaling of the borrowed payload
         if nblocks > 0 && i < cx.tier.pick(6, 40) {
             let mut seen: Option<AllocSnap> = None;
